@@ -331,6 +331,10 @@ def _run_estimator(unit, rec, dreye):
                 e = np.zeros((1, d))
                 e[0, k] = 1.0
                 sigs.append(("onehot%d" % k, e))
+            if m == 2:
+                # image-sized batches of signals (sizes around powers of two, where block-wise implementations switch)
+                for nbig in (513, 700, 1025, 4100):
+                    sigs.append(("many-%d" % nbig, _dense((nbig, d), 5)))
             for name, S in sigs:
                 rec.path()
                 out, exc = _call(rec, est.capture, S)
@@ -345,5 +349,5 @@ def _run_estimator(unit, rec, dreye):
                 ok = _close(out, exp, sc)
                 rec.outcome("estimator-ok" if ok else "estimator-bad")
                 if not ok:
-                    rec.violation("h", sig, "ReceptorEstimator.capture differs from the trapezoid oracle on its own domain", case, observed=out, expected=exp)
+                    rec.violation("h", sig, "ReceptorEstimator.capture differs from the trapezoid oracle on its own domain", case, observed=np.asarray(out)[-3:], expected=np.asarray(exp)[-3:])
     rec.sample(dict(api="ReceptorEstimator.capture", d=d), cap=1)
